@@ -98,7 +98,6 @@ impl CKBProtocolHandler for SyncProtocol {
                     let db_blocks: HashSet<_> =
                         db_blocks.into_iter().map(|(hash, _)| hash).collect();
 
-                    self.storage.remove_matched_blocks(start_number);
                     let blocks = self.peers.clear_matched_blocks(&mut matched_blocks);
                     assert_eq!(blocks.len(), db_blocks.len());
                     info!(
@@ -115,6 +114,10 @@ impl CKBProtocolHandler for SyncProtocol {
                     }
                     self.storage
                         .update_block_number(start_number + blocks_count - 1);
+                    // The downloaded blocks are kept in memory only, so the record should be
+                    // removed after they are indexed; otherwise, if the process is killed in
+                    // the middle, they will never be downloaded again.
+                    self.storage.remove_matched_blocks(start_number);
 
                     // send more GetBlocksProof/GetBlocks requests
                     if let Some((_start_number, _blocks_count, db_blocks)) =
